@@ -38,6 +38,8 @@ pub struct Tcp2Cfg {
     pub keep_alive_ms: Option<u64>,
     pub timeout_ms: Option<u64>,
     pub slaac: bool,
+    /// run over Medium::Ethernet (ARP / NDISC between the two real interfaces) instead of raw IP
+    pub eth: bool,
 }
 
 impl Tcp2Cfg {
@@ -60,7 +62,22 @@ impl Tcp2Cfg {
             keep_alive_ms: None,
             timeout_ms: None,
             slaac: false,
+            eth: false,
         }
+    }
+}
+
+/// the IP packet inside a frame of this configuration's medium (None: not IP, e.g. ARP)
+pub fn ip_part(eth: bool, f: &[u8]) -> Option<&[u8]> {
+    if !eth {
+        return Some(f);
+    }
+    if f.len() < 14 {
+        return None;
+    }
+    match (f[12], f[13]) {
+        (0x08, 0x00) | (0x86, 0xdd) => Some(&f[14..]),
+        _ => None,
     }
 }
 
@@ -147,8 +164,12 @@ pub fn pattern(side: usize, n: usize) -> Vec<u8> {
 
 impl Tcp2 {
     fn make_end(cfg: &Tcp2Cfg, side: usize) -> End {
-        let mut dev = SimDevice::new(Medium::Ip, cfg.mtu);
-        let mut c = Config::new(HardwareAddress::Ip);
+        let mut dev = SimDevice::new(if cfg.eth { Medium::Ethernet } else { Medium::Ip }, if cfg.eth { cfg.mtu + 14 } else { cfg.mtu });
+        let mut c = Config::new(if cfg.eth {
+            HardwareAddress::Ethernet(smoltcp::wire::EthernetAddress([0x02, 0, 0, 0, 0, 1 + side as u8]))
+        } else {
+            HardwareAddress::Ip
+        });
         c.slaac = cfg.slaac;
         c.random_seed = match cfg.isn {
             // the ISN is the 4th draw: three draws in Interface::new, then random_seq_no
@@ -159,6 +180,10 @@ impl Tcp2 {
         let addr = addr_of(cfg.v6, side);
         iface.update_ip_addrs(|a| {
             a.push(IpCidr::new(addr, if cfg.v6 { 64 } else { 24 })).unwrap();
+            if cfg.slaac {
+                // SLAAC needs a link-local address to solicit routers from
+                a.push(IpCidr::new(IpAddress::Ipv6(Ipv6Address::new(0xfe80, 0, 0, 0, 0, 0, 0, 1 + side as u16)), 64)).unwrap();
+            }
         });
         let mut s = tcp::Socket::new(
             tcp::SocketBuffer::new(vec![0u8; cfg.rx[side]]),
@@ -197,7 +222,7 @@ impl Tcp2 {
         Instant::from_micros(self.now)
     }
 
-    fn poll_side(&mut self, side: usize) -> usize {
+    pub fn poll_side(&mut self, side: usize) -> usize {
         let now = self.instant();
         let e = &mut self.ends[side];
         e.iface.poll(now, &mut e.dev, &mut e.sockets);
@@ -205,9 +230,22 @@ impl Tcp2 {
         let n = frames.len();
         let rq = e.sockets.get::<tcp::Socket>(e.h).recv_queue();
         for (i, (_ts, f)) in frames.into_iter().enumerate() {
-            self.on_emit(side, &f, n == 1 && i == 0, rq);
-            if self.keep_log {
-                self.log.push(format!("t={}us {}: {}", self.now, ["A", "B"][side], wc::describe_ip_frame(&f)));
+            match ip_part(self.cfg.eth, &f) {
+                Some(ip) => {
+                    let ip = ip.to_vec();
+                    self.on_emit(side, &ip, n == 1 && i == 0, rq);
+                    if self.keep_log {
+                        self.log.push(format!("t={}us {}: {}", self.now, ["A", "B"][side], wc::describe_ip_frame(&ip)));
+                    }
+                }
+                None => {
+                    if self.keep_log {
+                        self.log.push(format!("t={}us {}: non-IP frame {}", self.now, ["A", "B"][side], hex(&f)));
+                    }
+                }
+            }
+            if false {
+                self.log.push(String::new());
             }
             if self.keep_emitted {
                 self.emitted.push((side, f.clone()));
@@ -218,7 +256,7 @@ impl Tcp2 {
         n
     }
 
-    fn poll_at(&mut self, side: usize) -> Option<i64> {
+    pub fn poll_at(&mut self, side: usize) -> Option<i64> {
         let now = self.instant();
         let e = &mut self.ends[side];
         e.iface.poll_at(now, &e.sockets).map(|t| t.total_micros())
@@ -373,7 +411,7 @@ impl Tcp2 {
 
     /// Names the internal cause of a stall (used only to NAME a violation that the observable
     /// oracle already established).
-    fn attribution(&self, side: usize) -> String {
+    pub fn attribution(&self, side: usize) -> String {
         let e = &self.ends[side];
         let img = format!("{:?}", e.sockets.get::<tcp::Socket>(e.h));
         let field = |k: &str| -> String {
@@ -427,11 +465,14 @@ impl Tcp2 {
 
     fn deliver(&mut self, to: usize, fr: &Frame) {
         if !fr.corrupted {
-            let b = fr.bytes.clone();
-            self.on_deliver_learn(to, &b);
+            if let Some(b) = ip_part(self.cfg.eth, &fr.bytes) {
+                let b = b.to_vec();
+                self.on_deliver_learn(to, &b);
+            }
         }
         if self.keep_log {
-            self.log.push(format!("t={}us   -> {} receives {}{}", self.now, ["A", "B"][to], wc::describe_ip_frame(&fr.bytes), if fr.corrupted { " (corrupted)" } else { "" }));
+            let d = ip_part(self.cfg.eth, &fr.bytes).map(wc::describe_ip_frame).unwrap_or_else(|| "non-IP frame".into());
+            self.log.push(format!("t={}us   -> {} receives {}{}", self.now, ["A", "B"][to], d, if fr.corrupted { " (corrupted)" } else { "" }));
         }
         self.ends[to].dev.rx.push_back(fr.bytes.clone());
         // a frame arrived: the interface is polled
@@ -555,7 +596,8 @@ impl Harness for Tcp2 {
             Ev::Drop { to } => {
                 let fr = self.net[to].remove(0);
                 if self.keep_log {
-                    self.log.push(format!("t={}us   xx dropped: {}", self.now, wc::describe_ip_frame(&fr.bytes)));
+                    let d = ip_part(self.cfg.eth, &fr.bytes).map(wc::describe_ip_frame).unwrap_or_else(|| "non-IP frame".into());
+                    self.log.push(format!("t={}us   xx dropped: {}", self.now, d));
                 }
             }
             Ev::Dup { to } => {
@@ -568,7 +610,7 @@ impl Harness for Tcp2 {
             Ev::Corrupt { to } => {
                 let mut fr = self.net[to].remove(0);
                 // flip one bit in the TCP sequence number field (IPv4: 20+4, IPv6: 40+4)
-                let off = if self.cfg.v6 { 44 } else { 24 } + 3;
+                let off = if self.cfg.v6 { 44 } else { 24 } + 3 + if self.cfg.eth { 14 } else { 0 };
                 if off < fr.bytes.len() {
                     fr.bytes[off] ^= 0x04;
                 }
